@@ -19,7 +19,7 @@ import DigModel.Props.C14
 -/
 namespace Dig.C06
 
-theorem EqButVerified.refl (a : St) : EqButVerified a a :=
+private theorem EqButVerified.refl (a : St) : EqButVerified a a :=
   ⟨rfl, rfl, rfl, rfl, rfl, rfl, rfl, rfl, fun _ => ⟨rfl, rfl, rfl, rfl, rfl, rfl, rfl, rfl, rfl, rfl⟩⟩
 
 theorem C06_provide_unchanged (ctx : Ctx) (fn : Fn) (st : St) (i s : Nat) (o : ProvideOpts) (e : DErr)
